@@ -18,9 +18,9 @@ from harness import core, session, shipped
 FOREST_KW = {"S": 5, "p": 0.125, "r1": 6.0, "r2": 3.0}
 
 
-def child(base, d, oplog, kill_at, asyn, kind, K, f, m, wall_kill=None):
+def child(base, d, oplog, kill_at, asyn, kind, K, f, m, wall_kill=None, resume=False):
     env = core.env_for_impl(1)
-    cmd = [core.PY, str(core.VERIF / "harness" / "crash_child.py"), os.path.join(base, d), oplog, str(kill_at), str(asyn), kind, str(K), str(f), str(m)]
+    cmd = [core.PY, str(core.VERIF / "harness" / "crash_child.py"), os.path.join(base, d), oplog, str(kill_at), str(asyn), kind, str(K), str(f), str(m)] + (["resume"] if resume else [])
     if wall_kill is None:
         p = subprocess.run(cmd, env=env, capture_output=True, text=True, timeout=600)
         return p.returncode
@@ -175,6 +175,8 @@ def run(tier, seed):
                 bad = []
                 if model_latest == "_" or k < int(model_latest):
                     bad.append(f"restored iteration {k} is older than the last completed save {model_latest}")
+                elif k != int(model_latest):
+                    bad.append(f"the latest committed checkpoint is labelled {model_latest} but holds the state of iteration {k}")
                 if k not in traj:
                     bad.append(f"restored iteration {k} never existed")
                 else:
@@ -190,6 +192,65 @@ def run(tier, seed):
                 if bad:
                     res.disagreements.append({"channel": "C11/restored-state", "case": case, "model": f"latest committed = {model_latest}", "impl": raw[:300], "failing_input": True,
                                               "what": "; ".join(bad), "key": "restored-state"})
+        # crash - restore - continue (still checkpointing into the same directory) - crash - restore
+        for (kind, asyn, f, m) in (configs[:1] if tier == "quick" else configs):
+            g = "1" if kind in ("rvi", "periodic") else "1/2"
+            new = {"op": "new", "solver": kind, "id": "p", "maxbs": 1024, "gamma": g, "eps": "1/10000000000000" if kind != "pi" else "1/1000", "sid": "ref", "n_hint": 5, "f": 0}
+            if kind == "periodic":
+                new.update(period=2, clear=0)
+            if kind == "pi":
+                new.update(budget=3)
+            K2 = 12
+            ops = [{"op": "shipped", "id": "p", "target": shipped.T["forest"], "kwargs": FOREST_KW}, new] + [{"op": "solve", "sid": "ref", "k": 1} for _ in range(K2)]
+            traj = {int(r["iter"]): r for r in [core.parse_resp(x["resp"]) for x in core.run_impl(ops, 1)][2:]}
+
+            def chain(spec):
+                n1, n2 = spec
+                d = f"chain_{kind}{asyn}{f}{m}_{n1}_{n2}"
+                lg1, lg2 = os.path.join(base, d + ".1.log"), os.path.join(base, d + ".2.log")
+                child(base, d, lg1, n1, asyn, kind, 5, f, m)
+                child(base, d, lg2, n2, asyn, kind, 6, f, m, resume=True)
+                resumed_at = None
+                if os.path.exists(lg2):
+                    for line in open(lg2):
+                        if line.startswith("START resumed_at="):
+                            resumed_at = int(line.strip().split("=")[1])
+                ev1, _ = events_of(lg1, os.path.join(base, d))
+                ev2, _ = events_of(lg2, os.path.join(base, d))
+                out = core.run_impl([{"op": "basedir", "path": base}, {"op": "restore", "sid": "r", "dir": d, "solver": kind, "id": "p"},
+                                     {"op": "ls", "dir": d, "template_sid": "r"}], 1)
+                return spec, resumed_at, ev1, ev2, core.parse_resp(out[1]["resp"]), core.parse_resp(out[2]["resp"]), out[1]["resp"]
+
+            specs = [(rng.randint(30, 90), rng.randint(10, 80)) for _ in range(4 if tier == "quick" else 16)]
+            with ThreadPoolExecutor(max_workers=8) as ex:
+                chains = list(ex.map(chain, specs))
+            for spec, resumed_at, ev1, ev2, rr, ls, raw in chains:
+                res.evaluations += 1
+                res.nontrivial.add(("chain", kind, asyn, f, m, spec))
+                res.count("crash-restore-crash")
+                case = {"config": {"solver": kind, "async": asyn, "frequency": f, "max_checkpoints": m}, "kills": {"first_at_op": spec[0], "second_at_op": spec[1]},
+                        "resumed_at": resumed_at, "events_stage1": ev1, "events_stage2": ev2}
+                bad = []
+                acc = core.parse_resp(core.run_driver([f"accepts evs={','.join(ev1 + ev2) if ev1 + ev2 else '-'}"])[0])
+                latest = acc["latest_after_prefix"].split(",")[-1]
+                if acc.get("accepts") != "true":
+                    res.disagreements.append({"channel": "C11/chain-conformance", "case": case, "model": str(acc)[:200], "impl": "", "failing_input": False,
+                                              "what": "operation log across crash and resume is not protocol-conforming", "key": "protocol-chain"})
+                if "iter" in rr:
+                    k = int(rr["iter"])
+                    if latest == "_" or k != int(latest):
+                        bad.append(f"latest committed checkpoint is labelled {latest} but restores as iteration {k}")
+                    if k not in traj or any(rr.get(x) != traj[k].get(x) for x in ("values", "gain", "hidx", "hist")):
+                        bad.append(f"restored state is not the state of iteration {k} of the uninterrupted run")
+                    if resumed_at is not None and k < resumed_at:
+                        bad.append(f"restored iteration {k} is older than the checkpoint {resumed_at} the second run itself started from")
+                    if ls.get("steps") != ls.get("stepiters"):
+                        bad.append(f"checkpoint labels {ls.get('steps')} hold iterations {ls.get('stepiters')}")
+                elif latest != "_":
+                    bad.append(f"restore fails although checkpoint {latest} was completed")
+                if bad:
+                    res.disagreements.append({"channel": "C11/crash-restore-crash", "case": case, "model": f"latest committed = {latest}", "impl": raw[:300], "failing_input": True,
+                                              "what": "; ".join(bad), "key": "chain"})
     finally:
         shutil.rmtree(base, ignore_errors=True)
     return res
